@@ -1,5 +1,6 @@
 import LlgoVerif.Lemmas.Chan
 import LlgoVerif.Lemmas.ChanThreads
+import LlgoVerif.Lemmas.ChanLive
 /-!
 # C10 — channels and select obey Go's channel semantics under every schedule
 
@@ -22,6 +23,13 @@ theorem fifo_buffered {caps : List Nat} {progs : List (List Op)} {s : State}
     (h : Reachable (init caps progs) s) (c : Cid) (hc : 0 < (s.chan c).cap) :
     (s.chan c).sent = (s.chan c).recvd ++ (s.chan c).contents :=
   (reachable_ginv h c).fifo hc
+
+/-- non-vacuity: a reachable state of a buffered channel with history `sent = [5, 6]`, `recvd = [5]`, ring `[6]` -/
+example : ∃ s, Reachable (init [2] [[.send 0 5, .send 0 6], [.recv 0]]) s ∧ 0 < (s.chan 0).cap ∧
+    (s.chan 0).sent = [5, 6] ∧ (s.chan 0).recvd = [5] ∧ (s.chan 0).contents = [6] := by
+  refine ⟨(runSched (init [2] [[.send 0 5, .send 0 6], [.recv 0]])
+      [.step 0, .step 0, .step 0, .step 1, .step 1]).getD (init [] []), ?_, by decide, by decide, by decide, by decide⟩
+  exact reachable_runSched Reachable.init [.step 0, .step 0, .step 0, .step 1, .step 1] (by decide)
 
 /-- … hence what receivers got from a buffered channel is a prefix of what was sent, in send order -/
 theorem no_dup_no_loss_buffered {caps : List Nat} {progs : List (List Op)} {s : State}
@@ -195,23 +203,50 @@ example : ∃ ok, (tryRecvBody ((newChan 1).push 7) ⟨0, 0⟩ true).out = .noti
     `p.mutex.Unlock(); p.cond.Broadcast()` -/
 theorem wakeup_follows_change (p : Point) (t : Tid) (ch : Chan)
     (h : (body p t ch).ch.len ≠ ch.len ∨ (body p t ch).ch.closed ≠ ch.closed ∨ (body p t ch).ch.getp ≠ ch.getp) :
-    ∃ n, (body p t ch).out = .notify (.finish true n) := by
-  cases p <;> simp only [body] at h ⊢
-  case sendLock c v => unfold sendLoop at h ⊢; split <;> (try split) <;> (try split) <;> simp_all [Chan.push, Chan.handOff] <;> (split <;> simp_all)
-  case sendWaitU c v => unfold sendLoop at h ⊢; split <;> (try split) <;> (try split) <;> simp_all [Chan.push, Chan.handOff] <;> (split <;> simp_all)
-  case sendWaitB c v => unfold sendLoop at h ⊢; split <;> (try split) <;> (try split) <;> simp_all [Chan.push, Chan.handOff] <;> (split <;> simp_all)
-  case recvLock c sl => unfold recvLoop at h ⊢; split <;> (try split) <;> (try split) <;> simp_all [Chan.pop]
-  case recvWaitU c sl => unfold recvLoop at h ⊢; split <;> (try split) <;> (try split) <;> simp_all [Chan.pop]
-  case recvWaitB c sl => unfold recvLoop at h ⊢; split <;> (try split) <;> (try split) <;> simp_all [Chan.pop]
-  case recv2Lock c b => unfold recv2Loop at h ⊢; split <;> simp_all
-  case recv2Wait c b => unfold recv2Loop at h ⊢; split <;> simp_all
-  case closeLock c => unfold closeBody at h ⊢; split <;> simp_all
-  case trySendLock c v => unfold trySendBody at h ⊢; split <;> (try split) <;> simp_all [Chan.push, Chan.handOff] <;> (split <;> simp_all)
-  case tryRecvLock c sl a => unfold tryRecvBody at h ⊢; split <;> (try split) <;> (try split) <;> simp_all [Chan.pop]
-  case prepLock c b => unfold prepBody at h ⊢; split <;> simp_all <;> (split at h <;> simp_all)
-  case endLock c b => unfold endBody at h ⊢; simp_all; split at h <;> simp_all
+    ∃ n, (body p t ch).out = .notify (.finish true n) :=
+  body_change_broadcasts p t ch h
 
 example : (body (.closeLock 0) 0 (newChan 1)).ch.closed ≠ (newChan 1).closed := by decide
+
+/-- PARTIAL liveness (what holds of `NoStuckPair`): on a BUFFERED channel whose mutex is free, a sender asleep in
+    `ChanSend`'s `for p.len == n { Wait }` and a receiver asleep in `ChanRecv`'s `for p.len == 0 { Wait }` never
+    coexist — under every schedule, with spurious wake-ups, for any number of threads.  (Invariant `WaitInv`,
+    `Lemmas/ChanLive.lean`: a thread asleep in one of these loops still has its wait condition true unless a
+    `Broadcast` on the channel is pending.)  The decidable hypotheses: the channel exists and its mutex is free. -/
+theorem no_stuck_pair_partial {caps : List Nat} {progs : List (List Op)} {s : State}
+    (h : Reachable (init caps progs) s) (c : Cid) (hc : c < s.owner.length) (hfree : s.own c = none)
+    (t1 t2 : Tid) (v : Val) (sl : Nat)
+    (h1 : (s.thread t1).pc = .at (.sendWaitB c v)) (w1 : (s.thread t1).waiting = true)
+    (h2 : (s.thread t2).pc = .at (.recvWaitB c sl)) (w2 : (s.thread t2).waiting = true) : False := by
+  obtain ⟨hw, hm⟩ := reachable_waitInv h
+  have hnb : ¬ Busy s c := not_busy_of_free hm hc hfree
+  have a := (hw.cond t1 _ h1 w1 hc).resolve_right hnb
+  have b := (hw.cond t2 _ h2 w2 hc).resolve_right hnb
+  simp only [waitCond, Point.chan] at a b
+  omega
+
+/-- … in particular the second disjunct of `parkedPair` (buffered pair) is unreachable with a free mutex, and a
+    parked buffered sender means the buffer is full, a parked buffered receiver means it is empty -/
+theorem parked_sender_sees_full {caps : List Nat} {progs : List (List Op)} {s : State}
+    (h : Reachable (init caps progs) s) (c : Cid) (hc : c < s.owner.length) (hfree : s.own c = none)
+    (t : Tid) (v : Val) (h1 : (s.thread t).pc = .at (.sendWaitB c v)) (w1 : (s.thread t).waiting = true) :
+    (s.chan c).len = (s.chan c).cap ∧ (s.chan c).cap ≠ 0 := by
+  obtain ⟨hw, hm⟩ := reachable_waitInv h
+  exact (hw.cond t _ h1 w1 hc).resolve_right (not_busy_of_free hm hc hfree)
+
+theorem parked_receiver_sees_empty {caps : List Nat} {progs : List (List Op)} {s : State}
+    (h : Reachable (init caps progs) s) (c : Cid) (hc : c < s.owner.length) (hfree : s.own c = none)
+    (t : Tid) (sl : Nat) (h1 : (s.thread t).pc = .at (.recvWaitB c sl)) (w1 : (s.thread t).waiting = true) :
+    (s.chan c).len = 0 ∧ (s.chan c).cap ≠ 0 := by
+  obtain ⟨hw, hm⟩ := reachable_waitInv h
+  exact (hw.cond t _ h1 w1 hc).resolve_right (not_busy_of_free hm hc hfree)
+
+/-- the hypotheses are satisfiable: a sender parked on a full buffer of capacity 1 with the mutex free -/
+example : ∃ s, Reachable (init [1] [[.send 0 5, .send 0 6]]) s ∧ 0 < s.owner.length ∧ s.own 0 = none ∧
+    (s.thread 0).pc = .at (.sendWaitB 0 6) ∧ (s.thread 0).waiting = true := by
+  refine ⟨(runSched (init [1] [[.send 0 5, .send 0 6]]) [.step 0, .step 0, .step 0]).getD (init [] []), ?_,
+    by decide, by decide, by decide, by decide⟩
+  exact reachable_runSched Reachable.init [.step 0, .step 0, .step 0] (by decide)
 
 /-! ## liveness and completeness of delivery: FALSE on the current code -/
 
